@@ -851,12 +851,20 @@ func checkProxyAssertions(w *World, r *Report, rule string) {
 				// every construction of recvT: on every path through it, a successful comma-ok assertion to iface was taken
 				bad := ""
 				nCons := 0
+				isOkAssert := func(v Val) bool {
+					ex, ok := v.V.(*ssa.Extract)
+					if !ok || ex.Index != 1 {
+						return false
+					}
+					ta, ok := ex.Tuple.(*ssa.TypeAssert)
+					return ok && ta.CommaOk && typeName(ta.AssertedType) == iface
+				}
 				for _, g := range w.ModFns {
-					var cons []ssa.Instruction
+					cons := map[ssa.Instruction]bool{}
 					for _, gb := range g.Blocks {
 						for _, gi := range gb.Instrs {
 							if mi, ok := gi.(*ssa.MakeInterface); ok && types.Identical(mi.X.Type(), recvT) {
-								cons = append(cons, gi)
+								cons[gi] = true
 							}
 						}
 					}
@@ -864,32 +872,48 @@ func checkProxyAssertions(w *World, r *Report, rule string) {
 						continue
 					}
 					nCons += len(cons)
-					_, over := w.enumPaths(g, pathOpts{}, func(p *Path) {
-						for _, ev := range p.Events {
-							isCons := false
-							for _, c := range cons {
-								if ev.In == c {
-									isCons = true
+					// guarded(root): on every path of root (private helpers inlined) every construction
+					// event is preceded by the successful assertion; a helper that receives the outcome
+					// as a parameter is judged from its callers.
+					var guarded func(root *ssa.Function, depth int) string
+					guarded = func(root *ssa.Function, depth int) string {
+						fail := ""
+						opts := pathOpts{}
+						if root != g {
+							opts = pathOpts{InlineDepth: 3, Inline: w.helperInline(root)}
+						}
+						_, over := w.enumPaths(root, opts, func(p *Path) {
+							for _, ev := range p.Events {
+								if cons[ev.In] && !p.hasBool(ev.Idx, true, isOkAssert) {
+									fail = "a " + shortType(recvT) + " is constructed at " + w.instrPos(ev.In) + " on a path without a successful check that the wrapped value implements " + iface
 								}
 							}
-							if !isCons {
-								continue
-							}
-							okAssert := p.hasBool(ev.Idx, true, func(v Val) bool {
-								ex, ok := v.V.(*ssa.Extract)
-								if !ok || ex.Index != 1 {
-									return false
-								}
-								ta, ok := ex.Tuple.(*ssa.TypeAssert)
-								return ok && ta.CommaOk && typeName(ta.AssertedType) == iface
-							})
-							if !okAssert {
-								bad = "a " + shortType(recvT) + " is constructed at " + w.instrPos(ev.In) + " on a path without a successful check that the wrapped value implements " + iface
+						})
+						if over {
+							return "path cap in " + fnShort(root)
+						}
+						if fail == "" || depth >= 3 {
+							return fail
+						}
+						// escalate to the callers when root is a private helper called only statically
+						sites := w.callers[root]
+						if len(sites) == 0 || w.anchors()[root] || root.Parent() != nil || token.IsExported(root.Name()) {
+							return fail
+						}
+						for _, site := range sites {
+							if site.Common().StaticCallee() != root {
+								return fail
 							}
 						}
-					})
-					if over {
-						bad = "path cap in " + fnShort(g)
+						for _, site := range sites {
+							if f2 := guarded(site.Parent(), depth+1); f2 != "" {
+								return f2
+							}
+						}
+						return ""
+					}
+					if f := guarded(g, 0); f != "" {
+						bad = f
 					}
 				}
 				r.Check(bad == "" && nCons > 0, rule, construct, w.instrPos(in), fmt.Sprintf("%d constructions, all under a successful assertion", nCons), orStr(bad, "receiver type is never constructed"))
